@@ -867,6 +867,7 @@ func RunC16(ctx *core.Ctx, r *core.Rng) {
 			rc.EndsSpare = core.Pick(r, []int{0, 1, 2, len(rc.Ends) + 3, 64})
 			ctx.Stats.Inc("fault_fired/arguments_with_spare_capacity")
 		}
+		NoiseP(ctx, r, 0.1) // other corners of the library used right before this index is built
 		strat, choose := genChooser(r, len(rc.Tasks))
 		rc.Strategy = strat
 		v, tr := execC16Trace(c, choose)
